@@ -247,7 +247,7 @@ func (c *c17Case) run() (string, error) {
 	}
 	c.Client.Msg = nil
 	for _, l := range strings.Split(msg, "\n") {
-		c.Client.Msg = append(c.Client.Msg, tokenise(l, ""))
+		c.Client.Msg = append(c.Client.Msg, tokenise(l, c.enhStr))
 	}
 	// exact text fidelity once the structure is right
 	if !(c.Enh == "none" && len(c.Msg[0]) >= 2 && c.Msg[0][0] == "e" && c.Msg[0][1] == "s") {
@@ -259,7 +259,7 @@ func (c *c17Case) run() (string, error) {
 }
 
 func genC17(maxLines, maxToks int) []*c17Case {
-	toks := []string{"w", "u", "e", "s"}
+	toks := []string{"w", "u", "e", "s", "E"}
 	var lines [][]string
 	var gl func(cur []string)
 	gl = func(cur []string) {
@@ -299,16 +299,35 @@ func genC17(maxLines, maxToks int) []*c17Case {
 	codesL := []int{421, 450, 451, 550, 552, 554}
 	n := 0
 	for _, m := range msgs {
+		quotes := false
+		for _, l := range m {
+			for _, t := range l {
+				if t == "E" {
+					quotes = true
+				}
+			}
+		}
 		for _, enh := range []string{"set", "unset", "none"} {
+			if quotes && enh == "none" {
+				continue // no code of its own to quote
+			}
 			c := &c17Case{Callback: cbs[n%4], Code: codesL[(n/4)%6], Enh: enh, Msg: m}
 			n++
+			own := fmt.Sprintf("%d.7.1", c.Code/100)
+			if enh == "unset" {
+				own = fmt.Sprintf("%d.0.0", c.Code/100)
+			}
 			var ls []string
 			k := 0
 			for _, l := range m {
 				s := ""
 				for _, t := range l {
 					k++
-					s += concreteTok(t, k)
+					if t == "E" {
+						s += own
+					} else {
+						s += concreteTok(t, k)
+					}
 				}
 				ls = append(ls, s)
 			}
@@ -318,7 +337,7 @@ func genC17(maxLines, maxToks int) []*c17Case {
 	}
 	// generic (non-SMTPError) errors: single-line texts
 	for i, l := range lines {
-		if len(l) == 0 || l[0] == "s" || l[len(l)-1] == "s" {
+		if len(l) == 0 || l[0] == "s" || l[len(l)-1] == "s" || strings.Contains(strings.Join(l, ""), "E") {
 			continue
 		}
 		c := &c17Case{Callback: cbs[i%4], Enh: "unset", Msg: [][]string{l}, generic: true}
